@@ -455,11 +455,15 @@ class MidCircuitWorld(World):
             V.append(Violation("C10", "all-frequencies-not-a-shot-histogram", site, {"all_frequencies": dict(list(af.items())[:6]), "n_shots": ns}))
             return V
         mid_m, fin_m = {}, {}
+        negligible = False
         for key, v in af.items():
             s, last = key[:len(key) - n], key[len(key) - n:]
             br = by_s.get(s)
             if br is None and s in self._possible:
-                ctx.probe("C10.negligible_branch_sampled")      # probability below 1e-13 but not zero: not judged
+                ctx.probe("C10.negligible_branch_sampled")      # probability below 1e-13 but not zero: counted, not judged
+                negligible = True
+                mid_m[s] = mid_m.get(s, 0.0) + v
+                fin_m[last] = fin_m.get(last, 0.0) + v
                 continue
             if br is None:
                 V.append(Violation("C10", "impossible-outcome-sampled", site, {"outcome_string": s, "tree": sorted(by_s)[:10], "script": op.get("script"), "op": op}))
@@ -474,8 +478,8 @@ class MidCircuitWorld(World):
             V.append(Violation("C10", "mid-circuit-marginal-differs", site, {"mid_circuit_meas_freqs": mcf, "recount": mid_m}))
         if not D.freq_close(f, fin_m, 1e-9):
             V.append(Violation("C10", "final-marginal-differs", site, {"returned": f, "recount": fin_m}))
-        if V:
-            return V
+        if V or negligible:
+            return V                # (with a negligible branch among the shots only the exact accounting above is judged)
         if len(mid_m) == len(tree) and len(tree) > 1:
             ctx.probe("C10.outcome_tree_fully_observed")
         if ns == 1:
@@ -576,6 +580,10 @@ class MidCircuitWorld(World):
                 bo = by_s.get(so)
                 if bo is None and so in self._possible:
                     self.ctx.probe("C10.negligible_branch_sampled")
+                    mid[so] = mid.get(so, 0.0) + v
+                    if so == s:
+                        mass += v
+                        rec[last] = rec.get(last, 0.0) + v
                     continue
                 if bo is None or R.distribution(bo.state, n, 1e-13).get(last, 0.0) < 1e-12:
                     return [Violation("C10", "impossible-outcome-sampled", site, {"key": key, "op": op})]
